@@ -166,6 +166,21 @@ pub fn names_universe(pairs: bool) -> Vec<Value> {
         out.push(Value::Object(m.clone()));
         out.push(json!([Value::Object(m), {"zz": 3}]));
     }
+    // a member named by one syntax-significant character (or a few) nested below another: what one name does to a
+    // scanner's state must not change how the next step of the same path is read
+    {
+        let syn = ["\"", "'", "\\", "?", "[", "]", ".", "*", ",", ":", "(", ")", "@", "$", " ", "a\"", "b?", "pipe 5\"", "fits?", "'x", "]?["];
+        for a in syn {
+            for b in syn {
+                let mut inner = Map::new();
+                inner.insert(b.to_string(), json!(true));
+                inner.insert("k".to_string(), json!(12));
+                let mut m = Map::new();
+                m.insert(a.to_string(), Value::Object(inner));
+                out.push(Value::Object(m));
+            }
+        }
+    }
     if pairs {
         for a in &names {
             for b in &names {
